@@ -1,0 +1,111 @@
+//go:build verif
+
+package partitioning
+
+// Contracts for govc (/verif). Comment-only file: no executable code, not part of the default build.
+
+/*@
+// Chunk start offsets for DataSplit: sst is UNINTERPRETED, constrained only by the hypothesis splitStarts(r) (prefix sums of the
+// chunk lengths). Clauses `splitStarts(r) ==> P` are proved for every interpretation of sst, hence hold for the actual prefix sums.
+spec fn sst(c int) int
+spec fn splitStarts(r [][][]byte) bool = sst(0) == 0 && (forall c :: 0 <= c && c < len(r) ==> sst(c+1) == sst(c) + len(r[c]))
+
+func (ds *DataSplit) SplitDataInChunks(data [][]byte, limit int) (r [][][]byte, err error)
+  ensures  err-iff-invalid: (err != nil) <==> (limit < 1 || data == nil)
+  ensures  no-empty-chunk: err == nil ==> (forall c :: 0 <= c && c < len(r) ==> len(r[c]) >= 1)
+  ensures  lossless-count: err == nil && splitStarts(r) ==> sst(len(r)) == len(data)
+  ensures  lossless-in-order: err == nil && splitStarts(r) ==> (forall c, j :: 0 <= c && c < len(r) && 0 <= j && j < len(r[c]) ==> r[c][j] == data[sst(c) + j])
+  assigns  nothing
+
+loop 1
+  invariant -1 <= rangeindex && rangeindex < len(data) || (rangeindex == -1 && len(data) == 0)
+  invariant fresh(returningBuff) && fresh(elements)
+  invariant 0 <= len(elements) && len(elements) <= rangeindex + 1
+  invariant pending: forall j :: 0 <= j && j < len(elements) ==> elements[j] == data[rangeindex + 1 - len(elements) + j]
+  invariant chunks: forall c :: 0 <= c && c < len(returningBuff) ==> len(returningBuff[c]) >= 1 && allocated(returningBuff[c]) && base(returningBuff[c]) != base(elements)
+  invariant emitted: splitStarts(returningBuff) ==> sst(len(returningBuff)) == rangeindex + 1 - len(elements) && (forall c, j :: 0 <= c && c < len(returningBuff) && 0 <= j && j < len(returningBuff[c]) ==> returningBuff[c][j] == data[sst(c) + j])
+@*/
+
+/*@
+// Unmarshal view of a marshalled batch (content-based: arguments are byte-string VALUES):
+// ucount(s) = number of elements of the batch.Batch that unmarshals from s, uelem(s, j) = its j-th element.
+spec fn ucount(s string) int
+spec fn uelem(s string, j int) string
+
+// infallible(m): m.Marshal never returns an error (true of GogoProtoMarshalizer on *batch.Batch); a hypothesis of the clauses
+// that need it, not an assumption
+spec fn infallible(m marshal.Marshalizer) bool
+
+// Environment assumption: round trip Unmarshal(Marshal(b)) == b for *batch.Batch (round-trip-count, round-trip-elems; C45 covers
+// the protobuf codec). Nothing is assumed about determinism of the produced bytes.
+func (m marshal.Marshalizer) Marshal(obj interface{}) (r []byte, err error)
+  pure
+  ensures infallible-never-fails: infallible(m) ==> err == nil
+  ensures round-trip-count: err == nil && typeIs(obj, ptr_batch.Batch) ==> ucount(str(r)) == len(payload(obj, ptr_batch.Batch).Data)
+  ensures round-trip-elems: err == nil && typeIs(obj, ptr_batch.Batch) ==> (forall j :: 0 <= j && j < len(payload(obj, ptr_batch.Batch).Data) ==> uelem(str(r), j) == str(payload(obj, ptr_batch.Batch).Data[j]))
+
+// Names for the byte strings involved (UNINTERPRETED; tied to the heap by the hypotheses named(..)/namedData(..)):
+// ch(c) = bytes of chunk c of the result, dv(k) = bytes of data[k]; st(c) = number of elements unpacked from the chunks before c
+// (all three are constrained only by the hypothesis named(r): st = prefix sums of ucount(ch(.))). Clauses
+// `named(r) && namedData(data) ==> P` are proved for every interpretation of ch, dv, st, hence P holds for the actual chunk and
+// element contents and the actual prefix sums.
+spec fn ch(c int) string
+spec fn dv(k int) string
+spec fn st(c int) int
+spec fn named(r [][]byte) bool = st(0) == 0 && (forall c :: 0 <= c && c < len(r) ==> ch(c) == str(r[c]) && st(c+1) == st(c) + ucount(ch(c)))
+spec fn namedData(d [][]byte) bool = forall k :: 0 <= k && k < len(d) ==> dv(k) == str(d[k])
+
+func (sdp *SizeDataPacker) PackDataInChunks(data [][]byte, limit int) (r [][]byte, err error)
+  requires marshalizer-set: sdp.marshalizer != nil
+  requires data-elements-allocated: forall k :: 0 <= k && k < len(data) ==> allocated(data[k])
+  ensures  invalid-input-is-error: (limit < 1 || data == nil) ==> err != nil
+  ensures  size-limit-or-single: err == nil ==> (forall c :: 0 <= c && c < len(r) - 1 ==> len(r[c]) < limit || ucount(str(r[c])) == 1)
+  ensures  size-limit-or-single-last: err == nil && len(r) >= 1 ==> len(r[len(r)-1]) < limit || ucount(str(r[len(r)-1])) == 1
+  ensures  no-empty-chunk: err == nil ==> (forall c :: 0 <= c && c < len(r) ==> ucount(str(r[c])) >= 1)
+  ensures  lossless-count: err == nil && named(r) && namedData(data) ==> st(len(r)) == len(data)
+  ensures  lossless-in-order: err == nil && named(r) && namedData(data) ==> (forall c, j :: 0 <= c && c < len(r) && 0 <= j && j < ucount(ch(c)) ==> uelem(ch(c), j) == dv(st(c) + j))
+  assigns  nothing
+
+loop 1
+  invariant -1 <= rangeindex && rangeindex < len(data) || (rangeindex == -1 && len(data) == 0)
+  invariant fresh(returningBuff) && fresh(elements) && base(returningBuff) != base(elements)
+  invariant 0 <= len(elements) && len(elements) <= rangeindex + 1
+  invariant data-allocated: forall k :: 0 <= k && k < len(data) ==> allocated(data[k])
+  invariant pending: forall j :: 0 <= j && j < len(elements) ==> elements[j] == data[rangeindex + 1 - len(elements) + j]
+  invariant allocated(lastMarshalized)
+  invariant lastMarshalized-count: len(elements) >= 1 ==> len(lastMarshalized) < limit && ucount(str(lastMarshalized)) == len(elements)
+  invariant lastMarshalized-elems: len(elements) >= 1 ==> (forall j :: 0 <= j && j < len(elements) ==> uelem(str(lastMarshalized), j) == str(elements[j]))
+  invariant chunks: forall c :: 0 <= c && c < len(returningBuff) ==> allocated(returningBuff[c]) && ucount(str(returningBuff[c])) >= 1 && (len(returningBuff[c]) < limit || ucount(str(returningBuff[c])) == 1)
+  invariant emitted: named(returningBuff) && namedData(data) ==> st(len(returningBuff)) == rangeindex + 1 - len(elements) && (forall c, j :: 0 <= c && c < len(returningBuff) && 0 <= j && j < ucount(ch(c)) ==> uelem(ch(c), j) == dv(st(c) + j))
+@*/
+
+/*@
+// dl(k) = len(data[k]), pl = its prefix sums up to a constant (both UNINTERPRETED, tied by the hypothesis namedLen): raw payload sizes
+spec fn dl(k int) int
+spec fn pl(k int) int
+spec fn namedLen(d [][]byte) bool = forall k :: 0 <= k && k < len(d) ==> dl(k) == len(d[k]) && pl(k+1) == pl(k) + dl(k)
+
+func (sdp *SimpleDataPacker) PackDataInChunks(data [][]byte, limit int) (r [][]byte, err error)
+  requires marshalizer-set: sdp.marshalizer != nil
+  requires limit-below-2^62: limit < 4611686018427387904
+  ensures  invalid-input-is-error: (limit < 1 || data == nil) ==> err != nil
+  ensures  no-empty-chunk: err == nil ==> (forall c :: 0 <= c && c < len(r) ==> ucount(str(r[c])) >= 1)
+  ensures  no-empty-chunk-if-infallible: err == nil && infallible(sdp.marshalizer) ==> (forall c :: 0 <= c && c < len(r) ==> ucount(str(r[c])) >= 1)
+  ensures  lossless-count: err == nil && infallible(sdp.marshalizer) && named(r) ==> st(len(r)) == len(data)
+  ensures  lossless-in-order: err == nil && infallible(sdp.marshalizer) && named(r) && namedData(data) ==> (forall c, j :: 0 <= c && c < len(r) && 0 <= j && j < ucount(ch(c)) ==> uelem(ch(c), j) == dv(st(c) + j))
+  ensures  payload-limit-or-single: err == nil && infallible(sdp.marshalizer) && named(r) && namedLen(data) ==> (forall c :: 0 <= c && c < len(r) ==> pl(st(c+1)) - pl(st(c)) < limit || ucount(ch(c)) == 1)
+  assigns  nothing
+
+loop 1
+  invariant -1 <= rangeindex && rangeindex < len(data) || (rangeindex == -1 && len(data) == 0)
+  invariant fresh(returningBuff) && fresh(currentChunk) && base(returningBuff) != base(currentChunk)
+  invariant 0 <= len(currentChunk) && len(currentChunk) <= rangeindex + 1
+  invariant pending: forall j :: 0 <= j && j < len(currentChunk) ==> currentChunk[j] == data[rangeindex + 1 - len(currentChunk) + j]
+  invariant lenChunk-bounded: 0 <= lenChunk && (len(currentChunk) == 0 ==> lenChunk == 0) && (lenChunk < limit || (len(currentChunk) == 1 && lenChunk < 281474976710656))
+  invariant chunks: infallible(sdp.marshalizer) ==> (forall c :: 0 <= c && c < len(returningBuff) ==> ucount(str(returningBuff[c])) >= 1)
+  invariant lenChunk-is-payload: namedLen(data) ==> lenChunk == pl(rangeindex + 1) - pl(rangeindex + 1 - len(currentChunk))
+  invariant emitted-count: infallible(sdp.marshalizer) && named(returningBuff) ==> st(len(returningBuff)) == rangeindex + 1 - len(currentChunk)
+  invariant emitted-in-order: infallible(sdp.marshalizer) && named(returningBuff) && namedData(data) ==> (forall c, j :: 0 <= c && c < len(returningBuff) && 0 <= j && j < ucount(ch(c)) ==> uelem(ch(c), j) == dv(st(c) + j))
+  invariant emitted-payload: infallible(sdp.marshalizer) && named(returningBuff) && namedLen(data) ==> (forall c :: 0 <= c && c < len(returningBuff) ==> pl(st(c+1)) - pl(st(c)) < limit || ucount(ch(c)) == 1)
+@*/
+
